@@ -244,3 +244,61 @@ func VerifH_C03_api_duplicate_orders() {
 	vrt.Covered("duplicates-checked")
 	_ = f.Close()
 }
+
+// dense groups (link storage in a fractal heap + name index): k links (1, 2, 3 or 9: above the dense threshold) to two
+// existing datasets; after reopen the group lists exactly the link names and every link leads to its target's data.
+// (Known finding KF-C03-dense-group-links: the reader has no dense link storage support; the labels about the links are
+// separate from the ones about the group itself and the rest of the tree.)
+func VerifH_C03_api_dense_group() {
+	vrt.LoopBound(20000)
+	fw, err := CreateForWrite("c03g.h5", CreateTruncate)
+	vrt.AssertNoErr(err, "create-ok")
+	va, vb := vrt.I32(), vrt.I32()
+	a, err := fw.CreateDataset("/a", Int32, []uint64{1})
+	vrt.AssertNoErr(err, "valid-creation-accepted")
+	vrt.AssertNoErr(a.Write([]int32{va}), "write-ok")
+	b, err := fw.CreateDataset("/b", Int32, []uint64{1})
+	vrt.AssertNoErr(err, "valid-creation-accepted")
+	vrt.AssertNoErr(b.Write([]int32{vb}), "write-ok")
+	k := []int{1, 2, 3, 9}[vrt.Choice(4)]
+	names := []string{"x", "y", "link_with_a_longer_name", "l3", "l4", "l5", "l6", "l7", "l8"}[:k]
+	links := map[string]string{}
+	for i, n := range names {
+		links[n] = []string{"/a", "/b"}[i%2]
+	}
+	if k > 8 && vrt.Bool() {
+		vrt.AssertNoErr(fw.CreateGroupWithLinks("/dg", links), "valid-creation-accepted") // above the threshold: dense
+	} else {
+		vrt.AssertNoErr(fw.CreateDenseGroup("/dg", links), "valid-creation-accepted")
+	}
+	vrt.Assert(fw.CreateDenseGroup("/dg", links) != nil, "duplicate-name-rejected")
+	_, err = fw.CreateGroup("/dg")
+	vrt.Assert(err != nil, "duplicate-name-rejected")
+	vrt.AssertNoErr(fw.Close(), "close-ok")
+	f, err := Open("c03g.h5")
+	vrt.AssertNoErr(err, "reopen-ok")
+	tree, dup := verifTree(f)
+	vrt.Assert(!dup, "no-name-twice")
+	vrt.Assert(tree["/dg/"] == "group" || tree["/dg"] == "group", "dense-group-present")
+	vrt.Assert(tree["/a"] == "dataset" && tree["/b"] == "dataset", "tree-equals-model")
+	count := 0
+	for p := range tree {
+		if len(p) > 4 && p[:4] == "/dg/" {
+			count++
+		}
+	}
+	vrt.Assert(count <= k, "dense-group-no-extra-links")
+	vrt.Covered("tree-compared") // (before the obligations of the known finding: a definite failure ends the path)
+	for i, n := range names {
+		d := verifFindDataset(f, "/dg/"+n)
+		vrt.Assert(d != nil, "dense-group-links-listed")
+		if d != nil {
+			got, err := d.Read()
+			vrt.AssertNoErr(err, "link-target-readable")
+			want := []int32{va, vb}[i%2]
+			vrt.Assert(err != nil || (len(got) == 1 && got[0] == float64(want)), "link-leads-to-target")
+		}
+	}
+	vrt.Assert(count == k, "dense-group-links-listed")
+	_ = f.Close()
+}
